@@ -228,6 +228,37 @@ def aggregate_undefined(ctx):
                           {'year': year, 'status': status, 'cents': cents})
 
 
+def shard_lines(ctx, k, payload):
+    """the lines that consume figure_tax: 1040 line 16 and worksheet lines 22/24
+    must equal the reference on their operand"""
+    from checks import c08
+    from hx import scenario
+    n, seed = payload
+    specs = [('1040.16', 'v:1040.15', {'i:1040.uncommon_tax': False, 'i:1040.need_8615': False, 'i:1040.schedule_d_required': False,
+                                       'v:1040.3a': 0.0, 'v:1040.7': 0.0}),
+             ('1040_qualdiv_capgain_tax_wkst.22', 'v:1040_qualdiv_capgain_tax_wkst.5', {}),
+             ('1040_qualdiv_capgain_tax_wkst.24', 'v:1040_qualdiv_capgain_tax_wkst.1', {})]
+
+    def body(args):
+        (year, status), cents, which = args
+        line, drv, reads = specs[which]
+        if year == 2021 and 4800000 <= cents < 6600000:
+            return   # the known table hole: covered by the figure_tax part
+        r = dict(reads)
+        r[drv] = cents / 100.0
+        r['i:1040.filing_status'] = {'enum': scenario.status_name(year, status)}
+        kind, val = c08.evaluate(year, line, r, None)
+        ctx.case()
+        ctx.count('line:' + line)
+        exp, tol = taxref.reference(year, status, F(cents, 100))
+        if kind != 'value' or abs(F(val) - exp) > max(tol, F(5, 1000)) + F(1, 200):
+            ctx.violation(f'line:{year}:{line}', f'{year} {status}: {line} with operand {cents/100} gives {kind} {val!r}; statutory tax is {float(exp)}',
+                          {'year': year, 'status': status, 'cents': cents, 'line': which})
+        ctx.nt(f'L{which}{year}{status}{cents}')
+    strat = st.tuples(st.sampled_from(PAIRS), income_strategy(), st.integers(0, 2))
+    hyp.run_given(strat, body, n, seed)
+
+
 def run(ctx):
     tier = ctx.tier
     hyp.pmap(ctx, shard_enum, [(y, s, tier) for (y, s) in PAIRS])
@@ -235,6 +266,7 @@ def run(ctx):
     n = 5000 if tier == 'quick' else 200000
     shards = 1 if tier == 'quick' else 16
     hyp.pmap(ctx, shard_random, [(n // shards, ctx.seed * 1000 + k) for k in range(shards)])
+    hyp.pmap(ctx, shard_lines, [((1500 if tier == 'quick' else 60000) // 4, ctx.seed * 1000 + 50 + k) for k in range(4)])
     aggregate_undefined(ctx)
     ctx.exhaustive = (tier == 'thorough')
     ctx.extra['rows_in_reference_table'] = len(taxref.all_rows())
@@ -244,6 +276,8 @@ def run(ctx):
 
 
 def replay(ctx, case):
+    if 'line' in case:
+        return
     v = check_point(ctx, case['year'], case['status'], case['cents'])
     if 'cents2' in case:
         v2 = check_point(ctx, case['year'], case['status'], case['cents2'])
